@@ -7,11 +7,12 @@ The rules live in helper modules:
   c01_eval.py    R4  evaluation order / short-circuit, R5 dispatch
   c01_imm.py     R6  immutability (may-alias effect analysis)
   c01_lit.py     R7  literals, R8 documented method sets
+  c01_args.py    R9  index bounds tables, R10 optional-argument presence
 """
 from __future__ import annotations
 
 from ..report import Rule
-from . import c01_parser, c01_eval, c01_ops, c01_imm, c01_lit
+from . import c01_parser, c01_eval, c01_ops, c01_imm, c01_lit, c01_args
 
 EXPLANATION = (
     'Decides structural clauses of C01 on every path of the anchored functions. '
@@ -28,6 +29,7 @@ EXPLANATION = (
     'a held value in place (may-alias analysis); held_object and self.variables have one writer; += stores a new holder; assignment deep-copies MutableInterpreterObject; '
     'holders that change their held object carry the mutable marker. R7: escapes are decoded iff the token is single-line, the escape regex accepts exactly the list of Syntax.md, '
     'dict.keys() is sorted. R8: registered methods of str/array/dict/int/bool equal docs/yaml/elementary/*.yml and each is argument-checked with tag-preserving wrappers. '
+    'R9: the decision table of array.get over the ordering worlds of (index, -len) and (index, len) returns held[index] exactly for -len <= index < len, else the fallback / InvalidArguments; str.format placeholders likewise for index < len. R10: in every interpreter function/method with an optional positional argument typed `object` (get_variable, dict.get, array.get, summary, subproject.get_variable, meson.get_*_property) the argument is never tested by truthiness, also in same-class helpers it is handed to. '
     'Does NOT decide: the value a particular program yields, arithmetic on concrete numbers, .format()/f-string rendering, semantics delegated to Python str/list methods, '
     'subdir()/subproject() scoping, and that `int` operand guards also admit Python bools (documented legacy for integers).')
 ASSUMPTIONS = [
@@ -49,4 +51,6 @@ RULES = [
     Rule('C01.R6', 'immutability: no in-place mutation of held values; += stores a new holder; assignment copies mutable objects', c01_imm.r6),
     Rule('C01.R7', 'literals: escapes decoded in single-line strings only, exactly the documented escapes; dict.keys() sorted', c01_lit.r7),
     Rule('C01.R8', 'documented method sets of str/array/dict/int/bool are registered and argument-checked', c01_lit.r8),
+    Rule('C01.R9', 'documented index bounds: array.get accepts exactly -len <= i < len, format placeholders i < len', c01_args.r9),
+    Rule('C01.R10', 'presence of an optional object-typed argument is decided by identity with None, never by truthiness', c01_args.r10),
 ]
